@@ -178,7 +178,7 @@ static void do_op(void)
     if (!h_arg("h")) { h_out("bad-op"); return; }
     b = h_unhex(h_arg("h"), &n);
     if (g_alen < 0 || n != g_alen) { free(b); h_out("bad-op"); return; }
-    for (i = 0; i < n; i++) if (b[i] == 0 || b[i] >= 128) { free(b); h_out("bad-op"); return; }
+    for (i = 0; i < n; i++) if (b[i] == 0) { free(b); h_out("bad-op"); return; }
     free(g_rf); g_rf = b;
     h_out("ok");
   }
